@@ -54,6 +54,9 @@ def configs(tier):
         out.append(dict(solver="linesearch", je=je, te=-2, maxiters=2, maxls=2, alphabet=full if tier == "thorough" else small + ["huge", "zero"]))
     out.append(dict(solver="linesearch", je=0, te=-2, maxiters=4, maxls=2, alphabet=["one", "tiny", "zero"]))
     out.append(dict(solver="quasi", je=0, te=-2, maxiters=3 if tier == "quick" else 4, maxls=1, alphabet=full))
+    # a long time step (|t| = 4 > pi): for the Gaussian-split system the flow derivative sin|t| is negative
+    out.append(dict(solver="quasi", je=0, te=2, maxiters=3, maxls=1, alphabet=full))
+    out.append(dict(solver="newton", je=0, te=2, maxiters=3, maxls=1, alphabet=full))
     out.append(dict(solver="fpdirect", je=0, te=-2, maxiters=3 if tier == "quick" else 4, maxls=1, alphabet=full))
     if tier == "thorough":
         out.append(dict(solver="linesearch", je=0, te=-2, maxiters=3, maxls=2, alphabet=small))
